@@ -4,11 +4,14 @@ From Coq Require Import List NArith Bool Arith.
 From SeataV Require Import At.Worker At.WorkerProofs.
 Import ListNotations.
 
-(* every accepted request is answered PhasetwoCommitted — for all settings, initial tables,
+(* the calls answered PhasetwoCommitted are exactly the requests that were queued (accepted), in
+   order; a call whose context is done first is refused with a retryable failure and is NOT queued;
+   there is no third kind of answer. Originally: every accepted request is answered PhasetwoCommitted — for all settings, initial tables,
    registered resources and all event sequences (requests, ticks, schedules, fault outcomes) *)
 Theorem C11_answer : forall c t0 k0 evs,
   let s := run c evs (init t0 k0) in
-  answers s = map (fun it => (it, st_committed)) (accepted s).
+  committed_of (answers s) = accepted s /\
+  forall p, In p (answers s) -> snd p = st_committed \/ snd p = st_retryable.
 Proof. exact answer_committed. Qed.
 
 (* a row is removed / is missing from undo_log only if a request for exactly that
@@ -63,13 +66,17 @@ Theorem C11_eventual_refuted_small_buffers :
   exists c t0 evs0, forall evs,
     let s := run c (evs0 ++ evs) (init t0 []) in
     length (accepted s) = 3 /\
-    answers s = map (fun it => (it, st_committed)) (accepted s) /\
+    committed_of (answers s) = accepted s /\
     (forall it, In it (accepted s) -> In it (table s) /\ In it (pend s)).
 Proof. exact circular_wait_small_buffers. Qed.
 
 (* ---- non-vacuity *)
-Example C11_answer_nonvacuous : length (answers nv_s) = 2.
-Proof. vm_compute. reflexivity. Qed.
+Example C11_answer_nonvacuous :
+  length (answers nv_s) = 2 /\
+  let s := run nv_cfg [Accept nv_a; Refuse nv_c; Accept nv_b] (init [nv_a; nv_b; nv_c] [1%N]) in
+  answers s = [(nv_a, st_committed); (nv_c, st_retryable); (nv_b, st_committed)] /\
+  accepted s = [nv_a; nv_b] /\ pend s = [nv_a; nv_b] /\ table s = [nv_a; nv_b; nv_c].
+Proof. vm_compute. repeat split. Qed.
 
 Example C11_precise_nonvacuous :
   run nv_cfg (nv_evs ++ drain_evs nv_cfg (work nv_s) nv_s) (init [nv_a; nv_b; nv_c] [1%N; 2%N])
